@@ -119,7 +119,7 @@ def run_agm(pid, tier, seed, fams, mutants, rule, assumptions, sample=None, repl
             d = dict(c)
             d["variant"] = (v0 + 11 * r) % 30
             # odd replicas of multi-thread cases: threads are frozen in the middle of machine steps (sched.py, MICRO MODE)
-            d["micro"] = (1 + seed * 100003 + i) if (micro and r % 2 == 1 and len(c["prog"]["threads"]) > 1) else 0
+            d["micro"] = (1 + seed * 100003 + 31 * i + r) if (micro and r % 2 == 1 and len(c["prog"]["threads"]) > 1) else 0
             # every second multi-thread case: all threads and nesting levels go through ONE shared grad / make_vjp / make_jvp object
             d["shared_ops"] = bool(micro and len(c["prog"]["threads"]) > 1 and i % 2 == 1)
             cases.append(d)
@@ -361,7 +361,7 @@ def c20(tier, seed, replay=None):
     if r.ok:
         raise vlib.MachineryError("the global-counter variant (pinned defect) was not rejected by the thread model")
     extra.append({"model_mutant": "CounterScope=global", "rejected_by": r.violated or "evaluation error"})
-    fams = [("threads2small", 2, 1000 if q else None)] + ([] if q else [("threads2med", 2, 20000)])
+    fams = [("threads2small", 2, 1000 if q else None)] + ([] if q else [("threads2med", 2, 8000)])
     rc = run_agm("C20", tier, seed, fams, [],
                  "two (thorough: three) threads, at least one of them nested; every interleaving of their machine steps is model-checked "
                  "(states merged by a VIEW); for the small pairs every distinct schedule is exported by TLC and replayed with real threads "
@@ -371,7 +371,7 @@ def c20(tier, seed, replay=None):
                      "machine-step boundaries, and with the switching thread frozen a pseudo-random number of line events *inside* its next step "
                      "(inside tracer.trace / primitive.f_wrapped / backward_pass / a rule) while the others take their steps; truly simultaneous "
                      "execution of two bytecodes is not explored",
-                     "thread-interleaving model: %s" % json.dumps(extra)], replicas=2, micro=os.environ.get("VERIF_NO_MICRO") != "1")
+                     "thread-interleaving model: %s" % json.dumps(extra)], replicas=2 if q else 6, micro=os.environ.get("VERIF_NO_MICRO") != "1")
     return rc
 
 
